@@ -247,3 +247,395 @@ Proof.
   rewrite lines_concat_closed by (apply Forall_map_line_of with (P := fun l => l = [] \/ ends_nl l); exact Hps).
   f_equal. apply lines_app_nl. exact Hp.
 Qed.
+
+(* ------------------------------------------------------------------ takewhile / dropwhile *)
+Lemma takewhile_all p (s : str) : (forall c, In c s -> p c = true) -> takewhile p s = s.
+Proof.
+  induction s as [|c s IH]; intros H; [reflexivity|]. simpl.
+  rewrite (H c (or_introl eq_refl)). f_equal. apply IH. intros x Hx. apply H. right. exact Hx.
+Qed.
+
+Lemma takewhile_app_stop p (a : str) d b :
+  (forall c, In c a -> p c = true) -> p d = false -> takewhile p (a ++ d :: b) = a.
+Proof.
+  induction a as [|c a IH]; intros H Hd; simpl.
+  - rewrite Hd. reflexivity.
+  - rewrite (H c (or_introl eq_refl)). f_equal. apply IH; [|exact Hd].
+    intros x Hx. apply H. right. exact Hx.
+Qed.
+
+Lemma takewhile_In p (s : str) c : In c (takewhile p s) -> p c = true /\ In c s.
+Proof.
+  induction s as [|x s IH]; simpl; [intros []|].
+  destruct (p x) eqn:E; [|intros []].
+  intros [H|H].
+  - subst x. split; [exact E | left; reflexivity].
+  - destruct (IH H) as [H1 H2]. split; [exact H1 | right; exact H2].
+Qed.
+
+Lemma takewhile_app_prefix p (a b : str) : exists t, takewhile p (a ++ b) = takewhile p a ++ t.
+Proof.
+  induction a as [|c a [t IH]]; simpl.
+  - exists (takewhile p b). reflexivity.
+  - destruct (p c); [|exists []; reflexivity]. exists t. rewrite IH. reflexivity.
+Qed.
+
+Lemma takewhile_not_nl_id (s : str) : ~ In ch_nl s -> takewhile not_nl s = s.
+Proof.
+  intros H. apply takewhile_all. intros c Hc. apply not_nl_true. intros F. subst c. exact (H Hc).
+Qed.
+
+Lemma takewhile_not_nl_stop (a b : str) : ~ In ch_nl a -> takewhile not_nl (a ++ ch_nl :: b) = a.
+Proof.
+  intros H. apply takewhile_app_stop; [|exact not_nl_nl].
+  intros c Hc. apply not_nl_true. intros F. subst c. exact (H Hc).
+Qed.
+
+Lemma takewhile_not_nl_free (s : str) : ~ In ch_nl (takewhile not_nl s).
+Proof.
+  intros F. apply takewhile_In in F. destruct F as [F _]. rewrite not_nl_nl in F. discriminate.
+Qed.
+
+Lemma dropwhile_head p (s : str) c r : dropwhile p s = c :: r -> p c = false.
+Proof.
+  induction s as [|x s IH]; simpl; [discriminate|].
+  destruct (p x) eqn:E; [exact IH|]. intros H. inversion H; subst. exact E.
+Qed.
+
+Lemma dropwhile_all p (w s : str) : (forall c, In c w -> p c = true) -> dropwhile p (w ++ s) = dropwhile p s.
+Proof.
+  induction w as [|c w IH]; intros H; [reflexivity|]. simpl.
+  rewrite (H c (or_introl eq_refl)). apply IH. intros x Hx. apply H. right. exact Hx.
+Qed.
+
+Lemma dropwhile_stop p (s : str) c r : p c = false -> dropwhile p (c :: r) = c :: r.
+Proof. intros H. simpl. rewrite H. reflexivity. Qed.
+
+Lemma dropwhile_snoc_stop p (s : str) c : p c = false -> dropwhile p (s ++ [c]) = dropwhile p s ++ [c].
+Proof.
+  intros H. induction s as [|x s IH]; simpl.
+  - rewrite H. reflexivity.
+  - destruct (p x); [exact IH | reflexivity].
+Qed.
+
+Lemma dropwhile_decomp p (s : str) :
+  exists w, s = w ++ dropwhile p s /\ (forall c, In c w -> p c = true).
+Proof.
+  induction s as [|x s [w [E H]]]; simpl.
+  - exists []. split; [reflexivity | intros c []].
+  - destruct (p x) eqn:Ex.
+    + exists (x :: w). split; [simpl; f_equal; exact E|].
+      intros c [Hc|Hc]; [subst; exact Ex | apply H; exact Hc].
+    + exists []. split; [reflexivity | intros c []].
+Qed.
+
+(* ------------------------------------------------------------------ strip *)
+Definition all_space (w : str) : Prop := forall c, In c w -> is_space c = true.
+
+(* the fixed points of strip: empty, or first and last characters are not white space *)
+Definition tight (t : str) : Prop :=
+  t = [] \/ ((exists c r, t = c :: r /\ is_space c = false) /\ (exists r d, t = r ++ [d] /\ is_space d = false)).
+
+Lemma all_space_nil : all_space [].
+Proof. intros c []. Qed.
+
+Lemma all_space_cons c w : is_space c = true -> all_space w -> all_space (c :: w).
+Proof. intros Hc Hw x [Hx|Hx]; [subst; exact Hc | apply Hw; exact Hx]. Qed.
+
+Lemma all_space_rev w : all_space w -> all_space (rev w).
+Proof. intros H c Hc. apply H. apply in_rev. exact Hc. Qed.
+
+Lemma all_space_blank w : all_space w <-> is_blank w = true.
+Proof. unfold all_space, is_blank. rewrite forallb_forall. tauto. Qed.
+
+Lemma lstrip_all_space w s : all_space w -> lstrip (w ++ s) = lstrip s.
+Proof. intros H. apply dropwhile_all. exact H. Qed.
+
+Lemma lstrip_stop c r : is_space c = false -> lstrip (c :: r) = c :: r.
+Proof. intros H. unfold lstrip. simpl. rewrite H. reflexivity. Qed.
+
+Lemma rstrip_all_space s w : all_space w -> rstrip (s ++ w) = rstrip s.
+Proof.
+  intros H. unfold rstrip. rewrite rev_app_distr.
+  rewrite (dropwhile_all is_space (rev w) (rev s) (all_space_rev _ H)). reflexivity.
+Qed.
+
+Lemma rstrip_stop r d : is_space d = false -> rstrip (r ++ [d]) = r ++ [d].
+Proof.
+  intros H. unfold rstrip. rewrite rev_app_distr. simpl. rewrite H.
+  simpl. rewrite rev_involutive. reflexivity.
+Qed.
+
+Lemma rstrip_cons_stop c r : is_space c = false -> rstrip (c :: r) = c :: rstrip r.
+Proof.
+  intros H. unfold rstrip. simpl. rewrite (dropwhile_snoc_stop _ _ _ H).
+  rewrite rev_app_distr. reflexivity.
+Qed.
+
+Lemma lstrip_decomp s : exists w, s = w ++ lstrip s /\ all_space w.
+Proof. apply dropwhile_decomp. Qed.
+
+Lemma rstrip_decomp s : exists w, s = rstrip s ++ w /\ all_space w.
+Proof.
+  destruct (dropwhile_decomp is_space (rev s)) as [w [E H]].
+  exists (rev w). split.
+  - unfold rstrip. rewrite <- rev_app_distr. rewrite <- E. symmetry. apply rev_involutive.
+  - apply all_space_rev. exact H.
+Qed.
+
+(* s = w1 ++ strip s ++ w2 with white space w1 w2 *)
+Lemma strip_decomp s : exists w1 w2, s = w1 ++ strip s ++ w2 /\ all_space w1 /\ all_space w2.
+Proof.
+  destruct (lstrip_decomp s) as [w1 [E1 H1]].
+  destruct (rstrip_decomp (lstrip s)) as [w2 [E2 H2]].
+  exists w1, w2. split; [|split; assumption].
+  unfold strip. rewrite <- E2. exact E1.
+Qed.
+
+Lemma strip_In s c : In c (strip s) -> In c s.
+Proof.
+  intros H. destruct (strip_decomp s) as [w1 [w2 [E _]]]. rewrite E.
+  apply in_or_app. right. apply in_or_app. left. exact H.
+Qed.
+
+Lemma rstrip_last s r d : rstrip s = r ++ [d] -> is_space d = false.
+Proof.
+  unfold rstrip. intros H.
+  destruct (dropwhile is_space (rev s)) as [|c t] eqn:E.
+  - destruct r; discriminate.
+  - simpl in H. apply app_inj_tail in H. destruct H as [_ H]. subst d.
+    eapply dropwhile_head. exact E.
+Qed.
+
+Lemma strip_tight s : tight (strip s).
+Proof.
+  unfold strip. destruct (lstrip s) as [|c r] eqn:E.
+  - left. reflexivity.
+  - assert (is_space c = false) as Hc by (eapply dropwhile_head; exact E).
+    right. rewrite (rstrip_cons_stop _ _ Hc). split.
+    + exists c, (rstrip r). split; [reflexivity | exact Hc].
+    + rewrite <- (rstrip_cons_stop _ _ Hc).
+      destruct (rstrip (c :: r)) as [|x t] eqn:F.
+      * rewrite (rstrip_cons_stop _ _ Hc) in F. discriminate.
+      * assert (x :: t <> []) as N by discriminate.
+        pose proof (@app_removelast_last _ (x :: t) x N) as L.
+        exists (removelast (x :: t)), (last (x :: t) x). split; [exact L|].
+        rewrite L in F. eapply rstrip_last. exact F.
+Qed.
+
+Lemma tight_strip t : tight t -> strip t = t.
+Proof.
+  intros [H|[[c [r [E Hc]]] [r' [d [E' Hd]]]]].
+  - subst t. reflexivity.
+  - unfold strip. rewrite E at 1. rewrite (lstrip_stop _ _ Hc). rewrite <- E.
+    rewrite E'. apply rstrip_stop. exact Hd.
+Qed.
+
+Lemma strip_fix_tight t : strip t = t -> tight t.
+Proof. intros H. rewrite <- H. apply strip_tight. Qed.
+
+Lemma strip_idem s : strip (strip s) = strip s.
+Proof. apply tight_strip. apply strip_tight. Qed.
+
+(* strip of a tight string wrapped in white space *)
+Lemma strip_wrap w1 t w2 : all_space w1 -> all_space w2 -> tight t -> strip (w1 ++ t ++ w2) = t.
+Proof.
+  intros H1 H2 [H|[[c [r [E Hc]]] [r' [d [E' Hd]]]]].
+  - subst t. simpl. unfold strip. rewrite (lstrip_all_space _ _ H1).
+    destruct (lstrip_decomp w2) as [w [E Hw]].
+    assert (all_space (lstrip w2)) as A.
+    { intros x Hx. apply H2. rewrite E. apply in_or_app. right. exact Hx. }
+    pose proof (rstrip_all_space [] (lstrip w2) A) as R. simpl in R. exact R.
+  - unfold strip. rewrite (lstrip_all_space _ _ H1).
+    assert (lstrip (t ++ w2) = t ++ w2) as L by (rewrite E; apply (lstrip_stop c (r ++ w2) Hc)).
+    rewrite L. rewrite (rstrip_all_space _ _ H2). rewrite E'. apply rstrip_stop. exact Hd.
+Qed.
+
+Lemma strip_wrap_fix w1 n w2 : all_space w1 -> all_space w2 -> strip n = n -> strip (w1 ++ n ++ w2) = n.
+Proof. intros H1 H2 H. apply strip_wrap; [exact H1 | exact H2 | apply strip_fix_tight; exact H]. Qed.
+
+Lemma all_space_single c : is_space c = true -> all_space [c].
+Proof. intros H. apply all_space_cons; [exact H | apply all_space_nil]. Qed.
+
+(* ------------------------------------------------------------------ upto_last, re_group *)
+Lemma upto_last_snoc d (s : str) : upto_last d (s ++ [d]) = Some s.
+Proof.
+  induction s as [|c s IH]; simpl.
+  - rewrite Ascii.eqb_refl. reflexivity.
+  - rewrite IH. reflexivity.
+Qed.
+
+Lemma upto_last_some d (s a : str) : upto_last d s = Some a -> exists b, s = a ++ d :: b /\ ~ In d b.
+Proof.
+  revert a. induction s as [|c s IH]; simpl; intros a H; [discriminate|].
+  destruct (upto_last d s) as [a'|] eqn:E.
+  - inversion H; subst. destruct (IH a' eq_refl) as [b [E1 E2]].
+    exists b. split; [simpl; f_equal; exact E1 | exact E2].
+  - destruct (Ascii.eqb c d) eqn:C; [|discriminate]. inversion H; subst.
+    apply Ascii.eqb_eq in C. subst c. exists s. split; [reflexivity|].
+    clear H IH. induction s as [|x s IHs]; [intros []|].
+    simpl in E. destruct (upto_last d s) as [a'|]; [discriminate|].
+    destruct (Ascii.eqb x d) eqn:X; [discriminate|].
+    intros [F|F]; [subst x; rewrite Ascii.eqb_refl in X; discriminate | exact (IHs eq_refl F)].
+Qed.
+
+Lemma upto_last_In d (s a : str) c : upto_last d s = Some a -> In c a -> In c s.
+Proof.
+  intros H Hc. destruct (upto_last_some _ _ _ H) as [b [E _]]. rewrite E.
+  apply in_or_app. left. exact Hc.
+Qed.
+
+Lemma upto_last_total d (s : str) : In d s -> exists a, upto_last d s = Some a.
+Proof.
+  induction s as [|c s IH]; [intros []|]. intros H. simpl.
+  destruct (upto_last d s) as [a|] eqn:E; [eexists; reflexivity|].
+  destruct H as [H|H].
+  - subst c. rewrite Ascii.eqb_refl. eexists; reflexivity.
+  - destruct (IH H) as [a F]. discriminate.
+Qed.
+
+(* the group found by re_group has no newline *)
+Lemma re_group_no_nl (s g : str) : re_group s = Ok g -> ~ In ch_nl g.
+Proof.
+  induction s as [|c s IH]; simpl; [discriminate|].
+  destruct (Ascii.eqb c "[").
+  - destruct (upto_last "]" (takewhile not_nl s)) as [a|] eqn:E; [|exact IH].
+    intros H. inversion H; subst. intros F.
+    apply (takewhile_not_nl_free s). eapply upto_last_In; eassumption.
+  - exact IH.
+Qed.
+
+(* re_group succeeds as soon as some '[' is followed by a ']' on its line *)
+Lemma re_group_total (a r : str) :
+  In "]" (takewhile not_nl r) -> exists g, re_group (a ++ "[" :: r) = Ok g.
+Proof.
+  intros H. induction a as [|c a IH]; simpl.
+  - destruct (upto_last_total _ _ H) as [g E]. rewrite E. exists g. reflexivity.
+  - destruct (Ascii.eqb c "["); [|exact IH].
+    destruct (upto_last "]" (takewhile not_nl (a ++ "[" :: r))) as [g|]; [exists g; reflexivity | exact IH].
+Qed.
+
+(* a first '[' with its group *)
+Lemma re_group_first (r g : str) :
+  upto_last "]" (takewhile not_nl r) = Some g -> re_group ("[" :: r) = Ok g.
+Proof. intros H. simpl. rewrite H. reflexivity. Qed.
+
+(* characters other than '[' in front are skipped *)
+Lemma re_group_skip (w s : str) : ~ In "[" w -> re_group (w ++ s) = re_group s.
+Proof.
+  induction w as [|c w IH]; intros H; [reflexivity|]. simpl.
+  destruct (Ascii.eqb c "[") eqn:E.
+  - apply Ascii.eqb_eq in E. exfalso. apply H. left. exact E.
+  - apply IH. intros F. apply H. right. exact F.
+Qed.
+
+Lemma all_space_no_bracket w : all_space w -> ~ In "[" w.
+Proof. intros H F. apply H in F. discriminate. Qed.
+
+(* ------------------------------------------------------------------ T5: the written header line *)
+Lemma hdr_text_cons n : hdr_text n = "[" :: (" " :: n ++ [" "]) ++ "]" :: [ch_nl].
+Proof. unfold hdr_text. simpl. rewrite <- app_assoc. reflexivity. Qed.
+
+Lemma strip_hdr_text n : strip (hdr_text n) = "[" :: (" " :: n ++ [" "]) ++ ["]"].
+Proof.
+  rewrite hdr_text_cons. unfold strip.
+  rewrite lstrip_stop by reflexivity.
+  change ("[" :: (" " :: n ++ [" "]) ++ ["]"; ch_nl])
+    with (("[" :: (" " :: n ++ [" "])) ++ ["]"; ch_nl]).
+  replace (("[" :: " " :: n ++ [" "]) ++ ["]"; ch_nl])
+    with ((("[" :: " " :: n ++ [" "]) ++ ["]"]) ++ [ch_nl]) by (rewrite <- app_assoc; reflexivity).
+  rewrite rstrip_all_space by (apply all_space_single; reflexivity).
+  apply rstrip_stop. reflexivity.
+Qed.
+
+Lemma hdr_inner_no_nl n : ~ In ch_nl n -> ~ In ch_nl ((" " :: n ++ [" "]) ++ ["]"]).
+Proof.
+  intros H F. apply in_app_or in F. destruct F as [F|F].
+  - simpl in F. destruct F as [F|F]; [discriminate|]. apply in_app_or in F.
+    destruct F as [F|F]; [exact (H F)|]. simpl in F. destruct F as [F|[]]. discriminate.
+  - simpl in F. destruct F as [F|[]]. discriminate.
+Qed.
+
+Lemma re_header_cons r : In "]" (takewhile not_nl r) -> re_header ("[" :: r) = true.
+Proof.
+  intros H. apply mem_In in H. unfold re_header. rewrite H. reflexivity.
+Qed.
+
+Lemma hdr_text_is_hdr n : ~ In ch_nl n -> is_hdr (hdr_text n) = true.
+Proof.
+  intros H. unfold is_hdr. rewrite strip_hdr_text. apply re_header_cons.
+  rewrite takewhile_not_nl_id by (apply hdr_inner_no_nl; exact H).
+  apply in_or_app. right. left. reflexivity.
+Qed.
+
+Lemma hdr_text_group n : ~ In ch_nl n -> re_group (hdr_text n) = Ok (" " :: n ++ [" "]).
+Proof.
+  intros H. rewrite hdr_text_cons. apply re_group_first.
+  replace ((" " :: n ++ [" "]) ++ ["]"; ch_nl])
+    with (((" " :: n ++ [" "]) ++ ["]"]) ++ ch_nl :: []) by (rewrite <- app_assoc; reflexivity).
+  rewrite takewhile_not_nl_stop.
+  - apply upto_last_snoc.
+  - apply hdr_inner_no_nl. exact H.
+Qed.
+
+Lemma hdr_text_ok : forall n, ~ In ch_nl n -> strip n = n ->
+  ends_nl (hdr_text n) /\ is_hdr (hdr_text n) = true /\ hdr_name (hdr_text n) = Ok n.
+Proof.
+  intros n H S. split; [apply hdr_text_ends_nl; exact H|].
+  split; [apply hdr_text_is_hdr; exact H|].
+  unfold hdr_name. rewrite (hdr_text_group _ H). simpl rmap. f_equal.
+  apply (strip_wrap_fix [" "] n [" "]); [apply all_space_single; reflexivity .. | exact S].
+Qed.
+
+(* ------------------------------------------------------------------ T6: names read by the parser *)
+Lemma hdr_name_shape l n : hdr_name l = Ok n -> exists g, re_group l = Ok g /\ n = strip g.
+Proof.
+  unfold hdr_name. destruct (re_group l) as [g|e]; simpl; intros H; [|discriminate].
+  inversion H. exists g. split; reflexivity.
+Qed.
+
+(* holds for any text l: the two side conditions of hdr_name_ok are not used *)
+Lemma hdr_name_ok_gen l n : hdr_name l = Ok n -> ~ In ch_nl n /\ strip n = n.
+Proof.
+  intros H. destruct (hdr_name_shape _ _ H) as [g [G E]]. subst n. split.
+  - intros F. apply strip_In in F. exact (re_group_no_nl _ _ G F).
+  - apply strip_idem.
+Qed.
+
+Lemma hdr_name_ok : forall l n, line_ok l -> is_hdr l = true -> hdr_name l = Ok n ->
+  ~ In ch_nl n /\ strip n = n.
+Proof. intros l n _ _ H. exact (hdr_name_ok_gen l n H). Qed.
+
+(* shape of a header line: white space, '[', and a ']' before the next newline *)
+Lemma is_hdr_shape l : is_hdr l = true ->
+  exists w r w2, l = w ++ "[" :: r ++ w2 /\ all_space w /\ all_space w2
+                 /\ strip l = "[" :: r /\ In "]" (takewhile not_nl r).
+Proof.
+  unfold is_hdr, re_header. intros H.
+  destruct (strip_decomp l) as [w1 [w2 [E [H1 H2]]]].
+  destruct (strip l) as [|c r] eqn:S; [discriminate|].
+  apply andb_true_iff in H. destruct H as [Hc Hm].
+  apply Ascii.eqb_eq in Hc. subst c. apply mem_In in Hm.
+  exists w1, r, w2. repeat split; assumption.
+Qed.
+
+Lemma hdr_name_total_gen l : is_hdr l = true -> exists n, hdr_name l = Ok n.
+Proof.
+  intros H. destruct (is_hdr_shape _ H) as [w [r [w2 [E [_ [_ [_ Hm]]]]]]].
+  assert (In "]" (takewhile not_nl (r ++ w2))) as Hm'.
+  { destruct (takewhile_app_prefix not_nl r w2) as [t Et]. rewrite Et.
+    apply in_or_app. left. exact Hm. }
+  destruct (re_group_total w (r ++ w2) Hm') as [g G].
+  exists (strip g). unfold hdr_name. rewrite E. rewrite G. reflexivity.
+Qed.
+
+Lemma hdr_name_total : forall l, line_ok l -> is_hdr l = true -> exists n, hdr_name l = Ok n.
+Proof. intros l _ H. exact (hdr_name_total_gen l H). Qed.
+
+(* the name read off a header line  w ++ "[" ++ r  (w white space): strip of the group of r *)
+Lemma hdr_name_of_shape w r g :
+  all_space w -> upto_last "]" (takewhile not_nl r) = Some g -> hdr_name (w ++ "[" :: r) = Ok (strip g).
+Proof.
+  intros Hw Hg. unfold hdr_name.
+  rewrite (re_group_skip _ _ (all_space_no_bracket _ Hw)). rewrite (re_group_first _ _ Hg). reflexivity.
+Qed.
